@@ -115,7 +115,12 @@ func (cx *world) makeVariant(t *node, kind string) (*variant, bool) {
 	case "wrong-parent":
 		var alt *node
 		for _, n := range cx.nodes {
-			if n != t.parent && n.num()+1 == t.num() {
+			// a block of another branch at the parent's height whose post-state differs from the
+			// real parent's: executed on it, the block cannot arrive at its own header's roots.
+			// (Found by the thorough tier: two branches of empty blocks can have identical
+			// post-states; re-sealed on such a sibling the block is VALID, not an invalid variant.)
+			if n != t.parent && n.num()+1 == t.num() &&
+				(n.blk.Root() != t.parent.blk.Root() || n.blk.ValRoot() != t.parent.blk.ValRoot()) {
 				alt = n
 				break
 			}
